@@ -70,9 +70,12 @@ int Futex::wake_all() noexcept {
   }
   // Resume when remove nodes and get their ownership successfully.
   int waked = 0;
-  for (auto node = head; node != nullptr; node = node->next) {
+  for (auto node = head; node != nullptr;) {
+    // 归还槽位后节点可能立即被新的等待者复用，后继需要提前取出
+    auto next_node = node->next;
     node->promise->resume(node->handle);
     box.finish_released(node->id);
+    node = next_node;
     waked++;
   }
   return waked;
